@@ -14,8 +14,12 @@ import json, os, re, subprocess, sys, time, hashlib, shutil, concurrent.futures 
 
 VERIF = os.path.dirname(os.path.dirname(os.path.abspath(__file__)))
 LEAN = os.path.join(VERIF, "lean")
-HARNESS = os.path.join(VERIF, "harness")
+# VERIF_HARNESS_DIR / QBICE_REPO let tools/seedtest.py run a check against a scratch copy of the
+# repository (with a seeded change applied) without touching /repo; default: the real things.
+HARNESS = os.environ.get("VERIF_HARNESS_DIR", os.path.join(VERIF, "harness"))
 REPO = os.environ.get("QBICE_REPO", "/repo")
+EVIDENCE_DIR = os.environ.get("VERIF_EVIDENCE_DIR", os.path.join(VERIF, "evidence"))
+REPLAY_DIR = os.environ.get("VERIF_REPLAY_DIR", os.path.join(VERIF, "replays"))
 ALLOWED_AXIOMS = {"propext", "Classical.choice", "Quot.sound"}
 TRUSTED_BASE = [
     "Lean 4.33.0 kernel",
@@ -30,7 +34,7 @@ class Ctx:
     def __init__(self, pid, tier, seed, replay=None):
         self.pid, self.tier, self.seed, self.replay = pid, tier, seed, replay
         self.t0 = time.time()
-        self.work = os.path.join(VERIF, "work", pid.lower())
+        self.work = os.path.join(os.environ.get("VERIF_WORK_DIR", os.path.join(VERIF, "work")), pid.lower())
         shutil.rmtree(self.work, ignore_errors=True)
         os.makedirs(self.work, exist_ok=True)
         self.notes = []
@@ -172,10 +176,10 @@ def load_known(pid):
 
 
 def write_replay(pid, obj, tag=None):
-    os.makedirs(os.path.join(VERIF, "replays"), exist_ok=True)
+    os.makedirs(REPLAY_DIR, exist_ok=True)
     blob = json.dumps(obj, sort_keys=True, indent=1)
     h = hashlib.sha1(blob.encode()).hexdigest()[:10]
-    path = os.path.join(VERIF, "replays", f"{pid}-{tag or h}.json")
+    path = os.path.join(REPLAY_DIR, f"{pid}-{tag or h}.json")
     open(path, "w").write(blob + "\n")
     return path
 
@@ -246,8 +250,8 @@ def finish(ctx, plugin, res, proof):
         "violations": len(violations) + (1 if tie_broken and not violations else 0),
         "notes": ctx.notes,
     }
-    os.makedirs(os.path.join(VERIF, "evidence"), exist_ok=True)
-    with open(os.path.join(VERIF, "evidence", f"{pid}.json"), "w") as fh:
+    os.makedirs(EVIDENCE_DIR, exist_ok=True)
+    with open(os.path.join(EVIDENCE_DIR, f"{pid}.json"), "w") as fh:
         json.dump(ev, fh, indent=1)
         fh.write("\n")
     for l in lines: print(l)
